@@ -141,7 +141,12 @@ class KllC07(Part):
             if r < pm and len(live) >= 2:
                 t = rng.choice([x for x in live if x != s])
                 rv = rng.random() < 0.4
+                qb = rng.random() < 0.6
+                if qb:
+                    h += queries(s)      # the queries cache the sorted view inside the target: the merge must drop it (query -> merge -> query)
                 h.append("merge %d %d%s" % (s, t, " rv" if rv else ""))
+                if qb:
+                    h += queries(s)
                 if rv or rng.random() < 0.3:
                     live.remove(t)
                     if len(live) < 2 and nxt < 40:
